@@ -10,6 +10,7 @@ CONSTANTS
   CoordsY <- Zero
   Repaired = TRUE
   Measure = TRUE
+  StyleFix = TRUE
 SPECIFICATION Spec
-INVARIANTS ClipInScreen SetCellConforms WideCellConforms AutoCellConforms FillConforms ExtentConforms
+INVARIANTS ClipInScreen SetCellConforms WideCellConforms AutoCellConforms StyleConforms FillConforms ExtentConforms
 CHECK_DEADLOCK FALSE
